@@ -259,7 +259,9 @@ func vfC08Run(run *vfkit.Run, cs *vfC08Case) {
 				if r.Intn(12) == 0 {
 					ln = 40000 // larger than any buffer on the path
 				}
-				body := fmt.Sprintf("%s:%s", id, strings.Repeat(string(rune('a'+g%26)), ln))
+				// characters that mean something to a formatter, a URL decoder, a C string or a byte-wise copier
+				spice := []string{"", "", " 100% done", " %d%s%v%x%!", " a%20b%2F", " %%", " ünï©ode 中 \U0001F600", " \\n\\t {0} ${x}"}[r.Intn(8)]
+				body := fmt.Sprintf("%s:%s", id, strings.Repeat(string(rune('a'+g%26)), ln)) + spice
 				var s vfSent
 				switch r.Intn(3) {
 				case 0:
